@@ -63,13 +63,16 @@ Proof.
   unfold esc_t1. bcase c x26; [cbn; intuition discriminate|]. bcase c x3c; [cbn; intuition discriminate|].
   bcase c x3e; [cbn; intuition discriminate|]. intros [E|[]]. congruence.
 Qed.
+Lemma esc_must_cons a q : q <> [] -> exists h, esc_must (a :: q) = h ++ esc_must q.
+Proof.
+  intro Hq. destruct q as [|b r]; [congruence|]. cbn [esc_must].
+  destruct (beq a x3c && tag_start b); [exists (bs "&lt;")|exists [a]]; reflexivity.
+Qed.
 Lemma esc_must_last y c : exists z, esc_must (y ++ [c]) = z ++ [c].
 Proof.
-  induction y as [|a y IH]; [exists []; reflexivity|]. cbn [app esc_must].
-  destruct (y ++ [c]) as [|b r] eqn:E; [destruct y; discriminate|]. rewrite <- E. destruct IH as [z Hz].
-  destruct (beq a x3c && tag_start b); rewrite Hz.
-  - exists (bs "&lt;" ++ z). now rewrite <- app_assoc.
-  - exists (a :: z). reflexivity.
+  induction y as [|a y IH]; [exists []; reflexivity|]. cbn [app].
+  destruct (esc_must_cons a (y ++ [c])) as [h Hh]; [destruct y; discriminate|].
+  destruct IH as [z Hz]. rewrite Hh, Hz. exists (h ++ z). now rewrite <- app_assoc.
 Qed.
 Lemma piece_region r : piece (esc_must (r ++ [x7d])).
 Proof.
@@ -93,3 +96,179 @@ Proof.
 Qed.
 Lemma spaces_no_lt n : ~ In x3c (spaces n).
 Proof. unfold spaces. intro H. apply repeat_spec in H. discriminate. Qed.
+
+(* ---- tags ---- *)
+Definition astate (s : st) (e : bool) (n : bytes) (a : attrs) : Prop :=
+  (s = TagName e n /\ a = []) \/ s = AfterAVq e n a \/ (exists a0 an, s = AttrN e n a0 an /\ a = a0 ++ [(an, [])]).
+
+Lemma fmt_attr_run s e n a k val : astate s e n a -> wf_key k = true ->
+  exists s' v', run s (fmt_attr (k, val)) = (s', []) /\ astate s' e n (a ++ [(k, v')]).
+Proof.
+  intros Hs Hk. unfold fmt_attr. cbn [fst snd]. set (v := format_attr val).
+  destruct k as [|c k]; [discriminate|]. cbn [wf_key] in Hk. apply andb_true_iff in Hk. destruct Hk as [Hc Hk].
+  pose proof (anamech_inv _ Hc) as (H1 & H2 & H3 & H4).
+  assert (Hsp : forall rest, run s ([x20] ++ (c :: k) ++ rest) = run (AttrN e n a [c]) (k ++ rest)).
+  { intro rest. destruct Hs as [[-> ->]|[->|(a0 & an & -> & ->)]]; cbn [app]; stp; red_tests; stp;
+      rewrite ?H1, ?H2, ?H3, ?H4; cbn [orb]; cbv beta iota;
+      destruct (run _ _); reflexivity. }
+  rewrite Hsp. rewrite run_app, attrn_run by assumption. cbv beta iota. cbn [app].
+  destruct (nonempty v) eqn:Ev.
+  - stp. red_tests. stp. red_tests. rewrite run_app, FmtP.escape_attr_inert. cbv beta iota. cbn [app].
+    stp. red_tests. cbn [run app]. exists (AfterAVq e n (a ++ [(c :: k, escape_attr v)])), (escape_attr v).
+    split; [reflexivity|]. right. left. reflexivity.
+  - cbn [run]. exists (AttrN e n a (c :: k)), []. split; [reflexivity|]. right. right. exists a, (c :: k). split; reflexivity.
+Qed.
+Lemma fmt_attrs_run e n l : forall s a, astate s e n a -> forallb (fun kv => wf_key (fst kv)) l = true ->
+  exists s' a', run s (flat_map fmt_attr l) = (s', []) /\ astate s' e n a' /\ map fst a' = map fst a ++ map fst l.
+Proof.
+  induction l as [|[k val] l IH]; intros s a Hs Hw.
+  - exists s, a. cbn. rewrite app_nil_r. auto.
+  - cbn [forallb fst] in Hw. apply andb_true_iff in Hw. destruct Hw as [Hk Hw]. cbn [flat_map].
+    destruct (fmt_attr_run s e n a k val Hs Hk) as (s1 & v1 & Hr1 & Hs1).
+    destruct (IH s1 _ Hs1 Hw) as (s2 & a2 & Hr2 & Hs2 & Hm). rewrite run_app, Hr1, Hr2.
+    exists s2, a2. split; [reflexivity|split; [exact Hs2|]]. rewrite Hm, map_app. cbn. now rewrite <- app_assoc.
+Qed.
+Lemma aclose_run s e n a : astate s e n a -> run s [x3e] = (Data [], emit_tag e n a).
+Proof.
+  intros [[-> ->]|[->|(a0 & an & -> & ->)]]; stp; red_tests; cbn [run]; rewrite ?app_nil_r; reflexivity.
+Qed.
+Lemma fmt_open_okd t a : wf_tag t = true -> forallb (fun kv => wf_key (fst kv)) a = true ->
+  okd (fmt_open t a) [SStart t (map fst a)].
+Proof.
+  intros Ht Ha txt. unfold fmt_open. destruct t as [|c t]; [discriminate|]. cbn [wf_tag] in Ht.
+  apply andb_true_iff in Ht. destruct Ht as [Hc Ht].
+  cbn [app]. stp. red_tests. stp. rewrite Hc. cbv beta iota.
+  rewrite run_app, tagname_run by assumption. cbv beta iota. cbn [app].
+  destruct (fmt_attrs_run false (c :: t) a (TagName false (c :: t)) []) as (s' & a' & Hr & Hs' & Hm);
+    [left; auto|assumption|].
+  rewrite run_app, Hr. cbv beta iota. rewrite (aclose_run _ _ _ _ Hs'). cbn [app].
+  eexists _, _. split; [reflexivity|].
+  rewrite skel_app, skel_emit_text. cbn. rewrite Hm. reflexivity.
+Qed.
+Lemma fmt_close_okd t : wf_tag t = true -> okd (fmt_close t) [SEnd t].
+Proof.
+  intros Ht txt. destruct (end_run txt t Ht) as (o & Hr & Hs). unfold fmt_close. rewrite Hr. eauto.
+Qed.
+Lemma last_gt y : lt_ok (y ++ [x3e]).
+Proof. apply lt_ok_last; reflexivity. Qed.
+Lemma fmt_open_lt t a : lt_ok (fmt_open t a).
+Proof. unfold fmt_open. rewrite !app_assoc. apply last_gt. Qed.
+Lemma fmt_close_lt t : lt_ok (fmt_close t).
+Proof. unfold fmt_close. rewrite !app_assoc. apply last_gt. Qed.
+
+(* ---- the layout ---- *)
+Section L.
+Variables voids inlines phrasings : list bytes.
+Notation inline_children := (inline_children voids).
+Notation fmt_node := (fmt_node voids inlines phrasings).
+Notation mem := Fmt.mem.
+(* the skeleton of a tree as the formatter writes it: a void element has no end tag and no content *)
+Fixpoint fskel (n : node) : list sk :=
+  match n with
+  | Text _ => []
+  | Elem t a k => SStart t (map fst a) :: (if mem t voids then [] else flat_map fskel k ++ [SEnd t])
+  end.
+
+Lemma depth_kid x k : In x k -> depthn x <= forest_depth k.
+Proof. unfold forest_depth. induction k as [|y r IH]; cbn; [tauto|]. intros [->|H]; [lia|]. specialize (IH H). lia. Qed.
+Lemma forest_depth_cons x k : forest_depth (x :: k) = Nat.max (depthn x) (forest_depth k).
+Proof. reflexivity. Qed.
+Lemma depthn_pos n : 1 <= depthn n.
+Proof. destruct n; cbn; lia. Qed.
+Lemma fskel_filter kids : flat_map fskel (filter nws kids) = flat_map fskel kids.
+Proof.
+  induction kids as [|c r IH]; [reflexivity|]. cbn [filter flat_map]. unfold nws at 1.
+  destruct (ws_only c) eqn:E; cbn [negb flat_map]; [|now rewrite IH].
+  destruct c; [cbn; exact IH|discriminate].
+Qed.
+
+Definition Q (fuel : nat) : Prop := forall kids, forest_depth kids <= fuel -> forallb wf kids = true ->
+  okd (inline_children fuel kids) (flat_map fskel kids) /\ lt_ok (inline_children fuel kids).
+Definition P (fuel : nat) : Prop := forall depth n, depthn n <= fuel -> wf n = true ->
+  okd (fmt_node fuel depth n) (fskel n).
+
+Lemma Q_step f : Q f -> Q (S f).
+Proof.
+  intros IH kids Hd Hw. cbn [Fmt.inline_children].
+  set (inl := fun c : node => match c with
+                  | Text s => escape_text (normalize_inline s)
+                  | Elem t a k => fmt_open t a ++ (if mem t voids then [] else inline_children f k ++ fmt_close t)
+                  end).
+  assert (HX : okd (flat_map inl kids) (flat_map fskel kids) /\ lt_ok (flat_map inl kids)).
+  { clear -IH Hd Hw. induction kids as [|c r IHr]; [split; [apply okd_nil|apply lt_ok_plain; tauto]|].
+    cbn [forallb] in Hw. apply andb_true_iff in Hw. destruct Hw as [Hwc Hwr].
+    rewrite forest_depth_cons in Hd.
+    destruct IHr as [R1 R2]; [lia|assumption|]. cbn [flat_map].
+    assert (HC : okd (inl c) (fskel c) /\ lt_ok (inl c)).
+    { destruct c as [s|t a k]; cbn [inl fskel].
+      - destruct (piece_esc_text (S (length (normalize_inline s))) (normalize_inline s)) as [A B]. split; assumption.
+      - cbn [wf] in Hwc. apply andb_true_iff in Hwc. destruct Hwc as [Hwc Hk].
+        apply andb_true_iff in Hwc. destruct Hwc as [Ht Ha].
+        pose proof (fmt_open_okd t a Ht Ha) as Ho.
+        destruct (mem t voids).
+        + rewrite app_nil_r. split; [exact Ho|apply fmt_open_lt].
+        + destruct (IH k) as [K1 K2]; [cbn [depthn] in Hd; fold (forest_depth k) in Hd; lia|exact Hk|].
+          split.
+          * apply (okd_app _ _ [SStart t (map fst a)] (flat_map fskel k ++ [SEnd t]) Ho).
+            apply (okd_app _ _ _ [SEnd t] K1 (fmt_close_okd t Ht)).
+          * apply lt_ok_app; [apply fmt_open_lt|apply lt_ok_app; [exact K2|apply fmt_close_lt]]. }
+    destruct HC as [C1 C2]. split; [now apply okd_app|now apply lt_ok_app]. }
+  destruct HX as [X1 X2]. exact (okd_trim _ _ X1 X2).
+Qed.
+Lemma Q_all : forall f, Q f.
+Proof.
+  induction f as [|f IH]; [|now apply Q_step].
+  intros kids Hd Hw. destruct kids as [|c r].
+  - cbn. split; [apply okd_nil|apply lt_ok_plain; tauto].
+  - exfalso. rewrite forest_depth_cons in Hd. pose proof (depthn_pos c). lia.
+Qed.
+
+Lemma P_step f : P f -> P (S f).
+Proof.
+  intros IH depth n Hd Hw. destruct n as [s|t a kids]; cbn [Fmt.fmt_node fskel].
+  - destruct (Fmt.nonempty (trimw s)); [|apply okd_nil].
+    destruct (piece_esc_text (S (length (trimw s))) (trimw s)) as [A _].
+    apply (okd_app _ _ [] [] (okd_plain _ (spaces_no_lt _))).
+    apply (okd_app _ _ [] [] A). apply okd_plain. intros [E|[]]. discriminate.
+  - cbn [wf] in Hw. apply andb_true_iff in Hw. destruct Hw as [Hw Hk].
+    apply andb_true_iff in Hw. destruct Hw as [Ht Ha].
+    assert (Hnl : okd [x0a] []) by (apply okd_plain; intros [E|[]]; discriminate).
+    apply (okd_app _ _ [] _ (okd_plain _ (spaces_no_lt _))).
+    apply (okd_app _ _ [SStart t (map fst a)] _ (fmt_open_okd t a Ht Ha)).
+    destruct (mem t voids); [exact Hnl|].
+    assert (Hdk : forest_depth kids <= f) by (cbn [depthn] in Hd; fold (forest_depth kids) in Hd; lia).
+    destruct (filter (fun c => negb (ws_only c)) kids) as [|c0 cr] eqn:Ef.
+    + assert (Hz : flat_map fskel kids = []).
+      { rewrite <- fskel_filter. unfold nws. now rewrite Ef. }
+      rewrite Hz. cbn [app]. apply (okd_app _ _ [SEnd t] [] (fmt_close_okd t Ht) Hnl).
+    + destruct (Fmt.keep_inline voids inlines phrasings f t kids).
+      * destruct (Q_all f kids Hdk Hk) as [K1 _].
+        apply (okd_app _ _ _ [SEnd t] K1). apply (okd_app _ _ [SEnd t] [] (fmt_close_okd t Ht) Hnl).
+      * rewrite <- Ef. rewrite <- (fskel_filter kids). fold nws.
+        apply (okd_app _ _ [] _ Hnl).
+        assert (Hkids : okd (flat_map (fmt_node f (S depth)) (filter nws kids)) (flat_map fskel (filter nws kids))).
+        { assert (Hin : forall x, In x (filter nws kids) -> depthn x <= f /\ wf x = true).
+          { intros x Hx. apply filter_In in Hx. destruct Hx as [Hx _]. split.
+            - pose proof (depth_kid x kids Hx). lia.
+            - rewrite forallb_forall in Hk. now apply Hk. }
+          induction (filter nws kids) as [|x r IHr]; [apply okd_nil|]. cbn [flat_map].
+          apply okd_app; [apply IH; apply Hin; now left|apply IHr; intros y Hy; apply Hin; now right]. }
+        apply (okd_app _ _ _ [SEnd t] Hkids).
+        apply (okd_app _ _ [] [SEnd t] (okd_plain _ (spaces_no_lt _))).
+        apply (okd_app _ _ [SEnd t] [] (fmt_close_okd t Ht) Hnl).
+Qed.
+Lemma P_all : forall f, P f.
+Proof.
+  induction f as [|f IH]; [|now apply P_step].
+  intros depth n Hd _. pose proof (depthn_pos n). lia.
+Qed.
+
+(* whatever bytes the text nodes and attribute values of a tree hold, and whichever layout each element
+   gets, tokenizing the formatted text yields exactly the tree's elements in order with their attribute
+   names (void elements without an end tag) *)
+Theorem fmt_skeleton n depth : wf n = true ->
+  skel (snd (run (Data []) (fmt_node (S (depthn n)) depth n))) = fskel n.
+Proof.
+  intro Hw. destruct (P_all (S (depthn n)) depth n ltac:(lia) Hw []) as (t & o & Hr & Hs). now rewrite Hr.
+Qed.
+End L.
